@@ -283,3 +283,32 @@ func VH_C09_import_recv_proxy() {
 	imp.Release()
 	vQuiescent(c, "C09.proxy.released")
 }
+
+// Shutdown with an embargo still pending (the peer aborts or the connection is closed before the
+// Disembargo comes back): the embargo is lifted, so a call held by it completes - delivered to the
+// local capability or failed - instead of hanging forever, and the embargoed client stays usable.
+func VH_C09_close_lifts_embargoes() {
+	t := &vTransport{}
+	c := vNewConn(t, nil)
+	tgt := &vRecvHook{sync: true}
+	target := capnp.NewClient(tgt)
+	c.mu.Lock()
+	_, ec := c.embargo(target)
+	c.mu.Unlock()
+	done := false
+	go func() {
+		_, rel := ec.SendCall(context.Background(), capnpSend(false))
+		rel()
+		done = true
+	}()
+	vSettle()
+	vAssert(!done && tgt.recvs == 0, "C09.embargo.call-held")
+	cerr := c.Close()
+	vSettle()
+	vReach("closed")
+	vAssert(cerr == nil, "C09.embargo.close-ok")
+	vAssert(done, "C09.embargo.held-call-completes-at-shutdown")
+	vQuiescent(c, "C09.embargo.close")
+	ec.Release()
+	vAssert(tgt.shutdowns == 1, "C09.embargo.target-released-exactly-once")
+}
